@@ -56,17 +56,23 @@ const bigCache = int64(16) << 30 // never evict
 // cases; created in run, removed at its end.
 var dirs *lib.DirPool
 
+// winStats records the windows advertised by the chunks the independent
+// writer generated in this run (read back with zstd.Header).
+var winStats *windowStats
+
 // settleMax bounds waits for quiescence (expiry is never a verdict).
 const settleMax = 20 * time.Second
 
 func run(r *lib.Run) {
 	r.SetRule("distinct tuples: dir1 = (representation, chunk size, encoder, size class, open cfg); dir2 = (cfg, path, kind, size class); golden = (golden id, cfg, direction); naming = (backend, kind, mode, prefix class, hash)")
 	r.Assume("'any 2.x release' is represented by the published format definition (independent codec in lib/casfmt.go) plus golden files written by the unchanged build; no historical binaries are available offline")
+	r.Assume("'any zstd encoder settings' is bounded to chunk frames advertising windows from 1 KiB (the format's minimum) to 128 MiB (2^27): both reference decoders (klauspost, libzstd) accept these with default settings, libzstd refuses larger ones by default (ZSTD_WINDOWLOG_LIMIT_DEFAULT = 27); chunk sizes 4 KiB to 8 MiB; every chunk is one zstd frame")
 	r.Assume("naming injectivity is judged on (key space, hash, prefix, stored format): AC/RAW names do not depend on the storage mode because their stored bytes do not; the gRPC backend has no prefix and maps RAW onto AC (documented in grpcproxy)")
 	r.Assume("azblobproxy applies a non-empty prefix twice (<prefix>/<prefix>/...); that is the behaviour of the unchanged build and is what deployed containers hold, so it is what is pinned")
 
 	dirs = lib.NewDirPool("c20")
 	defer dirs.Close()
+	winStats = newWindowStats()
 	// Many multi-megabyte buffers are in flight; a soft limit keeps the
 	// collector from letting the heap double on top of them.
 	defer debug.SetMemoryLimit(debug.SetMemoryLimit(2500 << 20))
@@ -92,12 +98,39 @@ func run(r *lib.Run) {
 	}
 	wg.Wait()
 
+	reportWindows(r)
+
 	// A run in which one of the directions observed nothing is not a pass.
 	if os.Getenv("VERIF_C20_ONLY") == "" {
 		for _, need := range []string{"dir1.file", "dir2.upload.checked", "dir2.fetch.checked", "golden.read.ok", "golden.write.ok", "naming.tuple"} {
 			if r.Counter(need) == 0 {
 				r.Inconclusive("no observation for " + need)
 			}
+		}
+	}
+}
+
+// reportWindows puts the advertised-window histogram into the evidence and
+// requires that direction 1 really covered both ends of the stated bound.
+func reportWindows(r *lib.Run) {
+	ws := winStats
+	ws.mu.Lock()
+	defer ws.mu.Unlock()
+	hist := map[string]int64{}
+	for l, n := range ws.byLog {
+		hist[fmt.Sprintf("2^%02d", l)] = n
+		r.CountN(fmt.Sprintf("gen.chunk-window.2^%02d", l), n)
+	}
+	for k, n := range ws.flags {
+		r.CountN("gen.chunk-frame."+k, n)
+	}
+	r.Extra("generated_chunk_windows", map[string]any{"min": ws.min, "max": ws.max, "by_log2": hist, "frame_kinds": ws.flags})
+	for _, b := range ws.bad {
+		r.Inconclusive("harness: a generated chunk is not a plain zstd frame: " + b)
+	}
+	if os.Getenv("VERIF_C20_ONLY") == "" || strings.Contains(os.Getenv("VERIF_C20_ONLY"), "dir1") {
+		if ws.min == 0 || ws.min > 1<<minWindowLog || ws.max < 1<<maxWindowLog {
+			r.Inconclusive(fmt.Sprintf("generated chunk windows span %d..%d bytes, not the stated 1 KiB..128 MiB", ws.min, ws.max))
 		}
 	}
 }
@@ -391,9 +424,9 @@ func pickEncoder(rng *rand.Rand, size int) encoder {
 	}
 }
 
-// Chunk sizes of the independent writer: 4 KiB ... 4 MiB, powers of two and
+// Chunk sizes of the independent writer: 4 KiB ... 8 MiB, powers of two and
 // odd values (the header states the chunk size; nothing restricts it).
-var chunkSizes = []int{4 * lib.KiB, 4*lib.KiB + 1, 8 * lib.KiB, 12345, 64 * lib.KiB, 100_000, 256 * lib.KiB, 512 * lib.KiB, lib.MiB - 1, lib.MiB, lib.MiB + 1, 2 * lib.MiB, 3 * lib.MiB, 4 * lib.MiB}
+var chunkSizes = []int{4 * lib.KiB, 4*lib.KiB + 1, 8 * lib.KiB, 12345, 64 * lib.KiB, 100_000, 256 * lib.KiB, 512 * lib.KiB, lib.MiB - 1, lib.MiB, lib.MiB + 1, 2 * lib.MiB, 3 * lib.MiB, 4 * lib.MiB, 6 * lib.MiB, 8 * lib.MiB}
 
 func chunkClass(cs int) string {
 	switch {
